@@ -617,14 +617,23 @@ class Interp:
                 # xs[lo:]  = drop lo (total: shorter lists give [])
                 t = base
                 for _ in range(lo):
-                    t = z3.If(U.is_nil(sn, t), t, U.tl(sn, t))
+                    if self.pure:
+                        t = z3.If(U.is_nil(sn, t), t, U.tl(sn, t))
+                    elif self.choose_bool(U.is_cons(sn, t), '@slice'):
+                        t = z3.simplify(U.tl(sn, t))
+                    else:
+                        break
                 return z3.simplify(t)
             if kind == 'fwd' and lo is None and hi is not None and hi >= 0:
                 # xs[:hi] = take hi
                 def take(t, n):
                     if n == 0:
                         return U.nil(sn)
-                    return z3.If(U.is_nil(sn, t), U.nil(sn), U.cons(sn, U.hd(sn, t), take(U.tl(sn, t), n - 1)))
+                    if self.pure:
+                        return z3.If(U.is_nil(sn, t), U.nil(sn), U.cons(sn, U.hd(sn, t), take(U.tl(sn, t), n - 1)))
+                    if self.choose_bool(U.is_cons(sn, t), '@slice'):
+                        return U.cons(sn, z3.simplify(U.hd(sn, t)), take(z3.simplify(U.tl(sn, t)), n - 1))
+                    return U.nil(sn)
                 return z3.simplify(take(base, hi))
             if kind in ('stack', 'snoc') and lo is None and hi == -1:
                 return z3.simplify(z3.If(U.is_nil(sn, base), base, U.tl(sn, base)))
@@ -1022,10 +1031,15 @@ class Interp:
                 self.assign(s.targets[0], self.ev(s.value))
                 continue
             if isinstance(s, ast.If):
+                self._last_isinstance = None
                 c = self.to_bool(self.ev(s.test))
+                li = self._last_isinstance
+                self._last_isinstance = None
                 if isinstance(c, bool):
                     return self.pure_block((s.body if c else s.orelse) + stmts[i + 1:])
                 env0 = dict(self.env)
+                if li is not None and is_z3(c) and li[2] is not None and c.eq(li[2]):
+                    self.refine(li[0], li[1][0], li[1][1])       # inside the branch x is a C(...)
                 a = self.pure_block(s.body + stmts[i + 1:])
                 self.env = dict(env0)
                 b = self.pure_block(s.orelse + stmts[i + 1:])
